@@ -16,7 +16,7 @@ const maxInlineDepth = 10
 
 func isSpecHelper(f *types.Func) bool {
 	switch f.Name() {
-	case "old", "forallInt", "existsInt", "forallReal", "existsReal", "implies", "assert", "assume", "iff", "fresh", "memEq", "lemmaUse", "wfd", "bnd", "sameSlice", "iterStart":
+	case "old", "forallInt", "existsInt", "forallReal", "existsReal", "implies", "assert", "assume", "iff", "fresh", "memEq", "lemmaUse", "wfd", "bnd", "sameSlice", "iterStart", "allocd":
 		return f.Pkg() != nil && strings.Contains(f.Pkg().Path(), "tdewolff/canvas")
 	}
 	return false
@@ -947,7 +947,8 @@ func (x *Exec) callModular(s *State, fi *FuncInfo, ct *Contract, recv *Term, arg
 	x.applyAssigns(s, fi, ct, env, sig, recv)
 	// results
 	var vals []*Term
-	pureVals := ct.HasAssign && len(ct.Assigns) == 0 && valueOnly(sig)
+	pureVals := ct.HasAssign && len(ct.Assigns) == 0
+	withEpoch := pureVals && !valueOnly(sig)
 	for i := 0; i < sig.Results().Len(); i++ {
 		rt := sig.Results().At(i).Type()
 		if pureVals {
@@ -957,6 +958,9 @@ func (x *Exec) callModular(s *State, fi *FuncInfo, ct *Contract, recv *Term, arg
 				as = append(as, recv)
 			}
 			as = append(as, args...)
+			if withEpoch {
+				as = append(as, x.epochOf(s))
+			}
 			v := x.uf(fmt.Sprintf("fn_%s_%s_%d", fi.Pkg.Types.Name(), sanitize(fi.Key), i), x.eng.tm.sortOf(rt), as...)
 			s.assume(x.typeInv(s, v, rt, 0))
 			vals = append(vals, v)
@@ -1195,6 +1199,13 @@ func (x *Exec) callSpecHelper(s *State, fn *types.Func, call *ast.CallExpr) []*T
 		v := x.eval(tmp, call.Args[1])
 		x.dry--
 		return []*Term{v}
+	case "allocd":
+		// the reference (or slice block) was allocated before now
+		v := x.eval(s, call.Args[0])
+		if v.S == SliceSort {
+			return []*Term{And(Cmp("<=", IntLit(0), Field(v, 0)), Cmp("<", Field(v, 0), x.heapGet(s, "$balloc", SInt)))}
+		}
+		return []*Term{And(Cmp("<=", IntLit(0), v), Cmp("<", v, x.heapGet(s, "$alloc", SInt)))}
 	case "sameSlice":
 		return []*Term{Eq(x.eval(s, call.Args[0]), x.eval(s, call.Args[1]))}
 	case "wfd":
